@@ -880,6 +880,12 @@ func singleStoreOf(v ssa.Value) *ssa.Store {
 // computeNilRetImplies: for module functions returning error as last result, find parameters that
 // are proven non-nil on every path that returns a nil error ("validators").
 func (c *nilCtx) computeNilRetImplies() {
+	for round := 0; round < 3; round++ {
+		c.computeNilRetImpliesOnce()
+	}
+}
+
+func (c *nilCtx) computeNilRetImpliesOnce() {
 	for _, fn := range c.p.ModFuncs {
 		res := fn.Signature.Results()
 		if res.Len() == 0 || !isErrorType(res.At(res.Len()-1).Type()) {
@@ -901,7 +907,7 @@ func (c *nilCtx) computeNilRetImplies() {
 					return // returns an error: nothing promised
 				}
 				n++
-				if !guardedNonNil(prm, r) {
+				if !guardedNonNil(prm, r) && !c.validatedByCall(prm, r) {
 					good = false
 				}
 			})
